@@ -170,7 +170,14 @@ pub fn sizes(st: &mut Stats) {
             }
         }};
     }
-    let Some((msk2, mb)) = rt!(msk, MasterSecretKey, "msk") else { return };
+    // 130 more registered users: the count prefix of the id list takes two LEB128 bytes
+    for _ in 0..130 {
+        if !call(|| cc.generate_user_secret_key(&mut msk, &a129)).is_ok() {
+            fail(st, "sizes:keygen-fails", "while registering 130 more users".into());
+            return;
+        }
+    }
+    let Some((msk2, mb)) = rt!(msk, MasterSecretKey, "msk-132-users") else { return };
     let Some((_, pb)) = rt!(mpk_new, MasterPublicKey, "mpk") else { return };
     let Some((usk_all2, ub)) = rt!(usk_all, UserSecretKey, "usk-131-rights") else { return };
     let Some((usk_one2, _)) = rt!(usk_one, UserSecretKey, "usk-131-revisions") else { return };
@@ -182,6 +189,9 @@ pub fn sizes(st: &mut Stats) {
             let max_chain = wm.chains.iter().map(|c| c.1.len()).max().unwrap_or(0);
             if wm.chains.len() != 131 * 2 || max_chain != 131 || wp.keys.len() != 131 * 2 || wu.chains.len() != 131 * 2 {
                 fail(st, "sizes:counts-differ", format!("msk rights {} (max chain {max_chain}), mpk keys {}, usk rights {}", wm.chains.len(), wp.keys.len(), wu.chains.len()));
+            }
+            if wm.users.len() != 132 {
+                fail(st, "sizes:counts-differ", format!("{} registered users in the serialized master key, 132 keys were issued", wm.users.len()));
             }
             let max_id = wm.structure.dims.iter().flat_map(|d| d.attrs.iter().map(|a| a.id)).max().unwrap_or(0);
             if max_id < 128 {
